@@ -34,6 +34,8 @@ def job(j):
     if op == 'load':
         if j.get('env'):
             os.environ['pgradd_DATA_DIR'] = j['env']
+        if j.get('cwd'):
+            os.chdir(j['cwd'])          # explicit paths may be relative to the working directory
         with warnings.catch_warnings(record=True):
             warnings.simplefilter('always')
             lib = GroupLibrary.Load(j['spec'])
